@@ -85,6 +85,11 @@ CHECKS["C16"] = dict(
    note="'Any number of times' is exercised as two fresh runs and one repetition; per-file failure is read from the `Error building file:` diagnostics.",
    ref="DESIGN.md section 5 C16")
 
+CHECKS["C17"] = dict(
+   technique="property-based single-fault injection into generated valid programs with recorded statement spans; validity predicate on the reported position plus a metamorphic shift relation",
+   text="Valid programs of 3..12 multi-line statements (12 statement shapes) get exactly one of 17 faults injected into one expression slot, optionally buried under further (multi-line) nesting; the program without the fault must evaluate. Through eval_string and a file build the diagnostic's first non-VIA line/column must lie in the faulty statement's span, a run-time fault inside a function body must list the calling statement in a VIA line, and inserting 1 or 3 lines before / 2 after must move the line by exactly that / not at all.",
+   note="The primary position is taken to be the first `line: N column: M` of the diagnostic outside VIA lines. A fault the static checker finds at the definition needs no call site.",
+   ref="DESIGN.md section 5 C17")
 CHECKS["C18"] = dict(
    technique="property-based testing of the CLI with the harness-set environment as oracle",
    text="Random environments (0..20 variables, arbitrary Unicode values) plus a planted secret are given to the real binary with a cleared environment; generated programs read set and unset names (bare and quoted selectors; top level, function, module, format expression, through a binding) in strict mode and with --no-strict; the JSON artifact must equal the value set, unset names must fail naming the variable (strict) or be null, no output may contain the secret or other variables' values; `let env` must be rejected and fields named env must resolve to the field.",
